@@ -383,4 +383,119 @@ example :
       .ok .h2 preface [.data [0, 0, 4], .eof] := by
   decide
 
+/-! ## Poll by poll: the detection future only sleeps when the stream told it to -/
+
+/-- one `poll` of `ReadVersion`: either it is done, or it returns `Pending` with what it has so far -/
+inductive PollOut
+  | done (r : SniffResult)
+  | pending (filled : Bytes) (rest : List Ev)
+deriving Repr, DecidableEq
+
+/-- One call of `ReadVersion::poll`: the read loop runs until the verdict is in, or until a read of the
+    underlying stream returns `Pending` (`ready!`) – which is the only place it gives up the thread. -/
+def pollVersion : List Ev → Bytes → PollOut
+  | [], filled => .done (.ok (if filled.length < preface.length then .h1 else .h2) filled [])
+  | ev :: rest, filled =>
+    if filled.length < preface.length then
+      match ev with
+      | .pending => .pending filled rest
+      | .err => .done .error
+      | .eof => .done (.ok .h1 filled rest)
+      | .data bs =>
+        let n := min bs.length (preface.length - filled.length)
+        let got := bs.take n
+        let left := bs.drop n
+        if n = 0 then .done (.ok .h1 filled rest)
+        else if got ≠ (preface.drop filled.length).take n then
+          .done (.ok .h1 (filled ++ got) (if left.isEmpty then rest else .data left :: rest))
+        else if left.isEmpty then pollVersion rest (filled ++ got)
+        else .done (.ok .h2 (filled ++ got) (.data left :: rest))
+    else .done (.ok .h2 filled (ev :: rest))
+
+/-- polling again after every `Pending` (which is what an executor does once the waker fires) -/
+def pollAll : Nat → List Ev → Bytes → Option SniffResult
+  | 0, _, _ => none
+  | fuel + 1, evs, filled =>
+    match pollVersion evs filled with
+    | .done r => some r
+    | .pending f rest => pollAll fuel rest f
+
+/-- **C08 (no sleep without a wake-up).** A poll of the detection future returns `Pending` only when the
+    last thing it did was a read of the underlying stream that returned `Pending` – the read that
+    registered the task's waker; everything read before that in the same poll is kept (`filled`), and the
+    stream continues right after that event. -/
+theorem C08_pending_only_after_inner_pending (evs : List Ev) (filled f : Bytes) (rest : List Ev)
+    (h : pollVersion evs filled = .pending f rest) :
+    ∃ before, evs = before ++ .pending :: rest ∧ (∀ e ∈ before, ∃ bs, e = .data bs) ∧ f.length < preface.length := by
+  induction evs generalizing filled with
+  | nil => simp [pollVersion] at h
+  | cons ev tl ih =>
+    by_cases hlt : filled.length < preface.length
+    · cases ev with
+      | pending =>
+        simp only [pollVersion, hlt, ↓reduceIte, PollOut.pending.injEq] at h
+        obtain ⟨h1, h2⟩ := h
+        subst h1; subst h2
+        exact ⟨[], rfl, (fun _ he => by cases he), hlt⟩
+      | eof => simp [pollVersion, hlt] at h
+      | err => simp [pollVersion, hlt] at h
+      | data bs =>
+        simp only [pollVersion, hlt, ↓reduceIte] at h
+        split at h
+        · cases h
+        · split at h
+          · cases h
+          · split at h
+            · obtain ⟨before, hb, hd, hl⟩ := ih _ h
+              refine ⟨.data bs :: before, by rw [hb]; rfl, ?_, hl⟩
+              intro e he
+              rcases List.mem_cons.mp he with he | he
+              · exact ⟨bs, he⟩
+              · exact hd e he
+            · cases h
+    · simp [pollVersion, hlt] at h
+
+/-- one poll is a prefix of the whole detection -/
+theorem readVersion_of_poll (evs : List Ev) (filled : Bytes) :
+    readVersion evs filled = (match pollVersion evs filled with | .done r => r | .pending f rest => readVersion rest f) := by
+  induction evs generalizing filled with
+  | nil => simp [pollVersion, readVersion]
+  | cons ev tl ih =>
+    by_cases hlt : filled.length < preface.length
+    · cases ev with
+      | pending => simp [pollVersion, readVersion, hlt]
+      | eof => simp [pollVersion, readVersion, hlt]
+      | err => simp [pollVersion, readVersion, hlt]
+      | data bs =>
+        simp only [pollVersion, readVersion, hlt, ↓reduceIte]
+        split
+        · rfl
+        · split
+          · rfl
+          · split
+            · exact ih _
+            · rfl
+    · simp [pollVersion, readVersion, hlt]
+
+/-- … and polling again after each wake-up reaches exactly the verdict of `readVersion` (the scripts of the
+    other theorems say nothing about how many polls it takes). -/
+theorem C08_repolling_reaches_the_verdict : ∀ (n : Nat) (evs : List Ev) (filled : Bytes), evs.length < n →
+    pollAll n evs filled = some (readVersion evs filled)
+  | 0, _, _, h => by omega
+  | n + 1, evs, filled, h => by
+    have hr := readVersion_of_poll evs filled
+    simp only [pollAll]
+    cases hp : pollVersion evs filled with
+    | done r => rw [hp] at hr; simp only [] at hr ⊢; rw [hr]
+    | pending f rest =>
+      rw [hp] at hr
+      simp only [] at hr ⊢
+      obtain ⟨before, hb, _, _⟩ := C08_pending_only_after_inner_pending evs filled f rest hp
+      have hlen : rest.length < n := by
+        have : evs.length = before.length + (rest.length + 1) := by rw [hb]; simp
+        omega
+      rw [hr]
+      exact C08_repolling_reaches_the_verdict n rest f hlen
+
 end Hd.Sniff
+
